@@ -1097,6 +1097,80 @@ def oracle_completion_honest(case, impl):
     return hits
 
 
+def oracle_idle_promptness(case, impl):
+    """C02 (promptness clause): "a write on an idle connection is transmitted at once, and a shutdown on an idle
+    connection emits its FIN at once". Judged on outgoing connections with a working transport and an open peer
+    window, before any loss signal: when every byte accepted so far has been sent and acknowledged and the
+    application writes (or shuts down), that call wakes the connection task (if the task has been polled since it
+    last found the ring empty, i.e. has registered for it) and the very next poll puts data (the FIN) on the wire."""
+    tr = Trace(case, impl)
+    hits = []
+    if any(l.startswith(("vs tmode", "vs chanclose", "vs cancel")) for l in case):
+        return []
+    ok, polled, expect, pending, outstanding, highest, sent_first = False, False, None, [], {}, None, 0
+    for ev in tr.events:
+        op = ev["op"]
+        if op == "new":
+            try:
+                ok = ev["opts"]["dir"] == "out" and int(ev["opts"].get("rwnd", 0)) >= 3000
+            except ValueError:
+                ok = False
+            polled, expect, pending, outstanding, sent_first = False, None, [], {}, 0
+            highest = (int(ev["opts"].get("our", 101)) - 1) % 65536
+        if not ok:
+            continue
+        if op == "inject":
+            pending.append(ev.get("dgram"))
+        if op in ("dropw", "dropr", "flush"):
+            ok = False
+        if op == "write" and ev["out"].startswith("ready:") and ev.get("accepted", 0) > 0:
+            if expect is None and not outstanding and sent_first == ev["accepted_from"]:
+                expect = ("data", ev["line"], " dw=1" in ev["out"], polled)
+            polled_since_write = False
+        if op == "shutdown":
+            if expect is None and not outstanding and sent_first == ev["accepted_total"]:
+                expect = ("fin", ev["line"], " dw=1" in ev["out"], polled)
+            elif expect is None:
+                ok = False
+        if op != "poll" or "dgrams" not in ev:
+            continue
+        fp = ev["fp"]
+        for d in pending:
+            if d is None or d["type"] in (1, 3, 4) or (highest is not None and _md(d["ack"], highest) > 0) \
+                    or d["wnd"] < 3000 or d["sack"] is not None:
+                ok = False
+                break
+            for q in list(outstanding):
+                if _md(d["ack"], q) >= 0:
+                    del outstanding[q]
+        pending = []
+        if not ok or not ev["res"].startswith("pending") or fp.get("rtor", "0") != "0" or fp.get("rec", "no") != "no":
+            ok = False
+            continue
+        if expect is not None:
+            kind, line, woke, was_polled = expect
+            want = 0 if kind == "data" else 1
+            if not any(d["type"] == want and (want == 1 or d["plen"] > 0) for d in ev["dgrams"]):
+                hits.append({"sig": {"oracle": "promptness", "what": f"idle_{kind}_not_sent_at_once"},
+                             "text": f"`{line}` on an idle connection (everything accepted so far sent and acknowledged, peer window open): the poll that follows at t={ev['t']} ns puts no {'data' if kind == 'data' else 'FIN'} on the wire"})
+                return hits
+            if was_polled and not woke:
+                hits.append({"sig": {"oracle": "promptness", "what": f"idle_{kind}_does_not_wake_the_connection"},
+                             "text": f"`{line}` on an idle connection did not wake the connection task (which had registered for it when it found the ring empty): the bytes wait for an unrelated event"})
+                return hits
+            expect = None
+        polled = True
+        for d in ev["dgrams"]:
+            if d["type"] in (0, 1):
+                if highest is None or _md(d["seq"], highest) > 0:
+                    highest = d["seq"]
+                    sent_first += d["plen"]
+                outstanding[d["seq"]] = d["plen"]
+        if any(d["type"] == 1 for d in ev["dgrams"]):
+            ok = False
+    return hits
+
+
 def oracle_eof_honest(case, impl):
     """C03: a reader sees a clean end-of-stream only after the peer's FIN: never when no FIN was ever received
     (connection aborted, channel from the socket lost, cancelled): then reads must report an error."""
@@ -1253,6 +1327,7 @@ def oracle_window_reopen(case, impl):
 
 
 ALL = {
+    "idle_promptness": oracle_idle_promptness,
     "completion_honest": oracle_completion_honest,
     "inactivity_discipline": oracle_inactivity_discipline,
     "cc_accounting": oracle_cc_accounting,
